@@ -295,7 +295,7 @@ OUT_NORMAL = ('normal',)
 
 
 class Interp:
-    FEAS_TIMEOUT_MS = 300
+    FEAS_TIMEOUT_MS = 150
 
     def __init__(self, unit_name='unit', loops=None, contextmanager=False, drop=None, max_paths=4000,
                  local_types=None):
@@ -315,10 +315,28 @@ class Interp:
         self.loop_paths = {}
 
     # ---------------------------------------------------------- utilities
+    _hq = {}
+
+    @classmethod
+    def has_quant(cls, z):
+        k = z.get_id()
+        r = cls._hq.get(k)
+        if r is None:
+            if z3.is_quantifier(z):
+                r = True
+            elif z3.is_app(z):
+                r = any(cls.has_quant(c) for c in z.children())
+            else:
+                r = False
+            cls._hq[k] = r
+        return r
+
     def feasible(self, st):
+        """path pruning only: checks the quantifier-free part of the path condition
+        (an over-approximation: infeasible paths that survive are harmless)"""
         s = z3.Solver()
         s.set('timeout', self.FEAS_TIMEOUT_MS)
-        s.add(*st.pc)
+        s.add(*[c for c in st.pc if not self.has_quant(c)])
         self.solver_checks += 1
         return s.check() != z3.unsat
 
@@ -798,6 +816,9 @@ class Interp:
                 continue
             items = self.concrete_items(s, itv)
             if items is None:
+                if isinstance(itv, SV) and hasattr(itv.ty, 'comprehension'):
+                    yield from itv.ty.comprehension(self, s, itv, node)
+                    continue
                 raise Unsupported('comprehension over symbolic iterable')
 
             def go(i, s, acc):
